@@ -322,6 +322,14 @@ def selection(env):
         env.holds(f'{cls.__name__}_no_kernel_no_corrector_is_Trivial', isinstance(o3.corrector[0], optm.Trivial))
 
 
+# where the selected correctors are USED: the step functions apply corrector k to residual k, and a single corrector (one kernel for a
+# model with several outputs) to every residual - the step contract of c07_step.py, discharged in this check too
+from contracts import c07_step as _c07
+for (_cls, _single), _fn in _c07.CORRECTOR_CONTRACTS.items():
+    obligation(f'C09.step.corrector_per_residual.{_cls}' + ('.single' if _single else ''), functions=[f'pypose.optim.optimizer:{_cls}.step'], max_paths=16,
+               note='same contract function as C07.corrector_before_weight.*')(_fn)
+
+
 @obligation('C09.canary.hessian_without_curvature_term', functions=[f'{COR}:Triggs.forward'], canary=True, max_paths=16)
 def canary(env):
     cor = env.load(COR); T = env.T
